@@ -459,6 +459,8 @@ package processor
 //@     invariant [stream-position-untouched-while-the-batch-is-prepared] p.currentIndex == old(p.currentIndex) && p.currentBucketKey == old(p.currentBucketKey)
 //@   loop 8:
 //@     invariant [nothing-of-the-stream-position-is-reset-at-a-batch-boundary] i >= 0 && implies(i == 0, p.currentIndex == old(p.currentIndex) && p.currentBucketKey == old(p.currentBucketKey))
+//@   site call iqr.AppendKnownValues #1:
+//@     assert [a-batch-without-rows-leaves-the-stream-position-alone] implies(i == 0, p.currentIndex == old(p.currentIndex) && p.currentBucketKey == old(p.currentBucketKey))
 //@   bounded processor/streamstats_split_test.go Test_Bounded_StreamstatsBatchSplit 8 rows, window=3 sum and reset_on_change sum by a key, one batch against each of the 7 ways of cutting the rows into two batches (14 comparisons): every row gets the same value
 //@ end
 
@@ -527,4 +529,26 @@ package processor
 //@   site call getValidRRCs #1:
 //@     assume int(arg2) == ghost(0, "fetchMode")
 //@     assert [records-are-released-only-up-to-the-cut-off] implies(arg2 == recentFirst, ghost(0, "fetchClamped") == 1 && arg1 >= ghost(0, "fetchCutOff")) && implies(arg2 == recentLast, ghost(0, "fetchClamped") == 1 && arg1 <= ghost(0, "fetchCutOff"))
+//@ end
+
+// C05 (records reach the pipeline newest first / oldest first): fetchRRCs
+// releases every record at or beyond the cut-off, which is sound only if EVERY
+// unprocessed segment that reaches the cut-off was put into this batch.  The
+// walk over the list of unprocessed segments therefore ends only at the end of
+// the list (segments overlap in time: one that straddles the cut-off says
+// nothing about those behind it), and each segment it meets is tested against
+// the cut-off.  Ghost qsrTested: shouldProcessQSR was asked for the segment of
+// this iteration.
+//@ ghostdecl qsrTested int
+//@ func (*Searcher).getQSRSToProcess
+//@   props C05
+//@   assumecalleerequires
+//@   ghostinit ghost(0, "qsrTested") == 0
+//@   site callret s.shouldProcessQSR #1:
+//@     ghostset ghost(0, "qsrTested") = 1
+//@   site call s.willProcessQSRCompletely #1:
+//@     assert [each-segment-met-is-tested-against-the-cut-off] ghost(0, "qsrTested") == 1 && arg1 == qsr
+//@     ghostset ghost(0, "qsrTested") = 0
+//@   site return #5:
+//@     assert [the-walk-ends-only-at-the-end-of-the-list] e == nil
 //@ end
